@@ -624,6 +624,21 @@ impl<Sink: TokenSink> Tokenizer<Sink> {
             self.reconsume.set(false);
         } else {
             input.next();
+            // Only the character right after a CR can be the LF of a CR LF pair.
+            self.ignore_lf.set(false);
+        }
+    }
+
+    /// Discard a whitespace character that was looked at with `peek()`.
+    ///
+    /// `discard_char()` bypasses input stream preprocessing, so line breaks have to be
+    /// accounted for here: CR, LF and CR LF each count as one line break.
+    fn discard_whitespace_char(&self, input: &BufferQueue, c: char) {
+        let after_cr = self.ignore_lf.get();
+        self.discard_char(input);
+        self.ignore_lf.set(c == '\r');
+        if c == '\r' || (c == '\n' && !after_cr) {
+            self.current_line.set(self.current_line.get() + 1);
         }
     }
 
@@ -1258,7 +1273,7 @@ impl<Sink: TokenSink> Tokenizer<Sink> {
             // hopefully in the same zero-copy buffer.
             states::BeforeAttributeValue => loop {
                 match peek!(self, input) {
-                    '\t' | '\n' | '\r' | '\x0C' | ' ' => go!(self: discard_char input),
+                    c @ ('\t' | '\n' | '\r' | '\x0C' | ' ') => self.discard_whitespace_char(input, c),
                     '"' => go!(self: discard_char input; to State::AttributeValue(DoubleQuoted)),
                     '\'' => go!(self: discard_char input; to State::AttributeValue(SingleQuoted)),
                     '>' => {
